@@ -294,6 +294,7 @@ def c04(run):
     else:
         D.correspond(run, 'msg', [], reference_theorem='C04_*_structure (the model computes the structure; the fake signature embeds the bytes the implementation signed)')
         D.oracle(run, 'msgreal', [])
+        D.oracle(run, 'realseq', [])
     run.cov['rule'] = ('6 message kinds x fake keys x header maps (int/text labels, nested values) x payload kinds (nil, empty, bytes up to 70000, RawMessage, typed) x external data (nil, empty, up to 256 bytes) produced and consumed; '
                        'foreign encodings with non-shortest heads / unsorted protected maps / explicit empty map, consumed and re-encoded; 24 real algorithms with recording wrappers: signed / MACed / AAD bytes compared with an independently written RFC 9052 structure on both directions')
     return D.finish(run, 'proof')
@@ -311,6 +312,7 @@ def c02(run):
     else:
         D.correspond(run, 'msg', [], reference_theorem='C02_*_binds (model of Verify for the 4 authenticated kinds)')
         D.oracle(run, 'msgreal', [])
+        D.oracle(run, 'realseq', [])
     run.cov['rule'] = ('fake-primitive messages of the 4 authenticated kinds: wrong key, wrong external data, other-algorithm key, consumed as another kind, 12 mutation classes (bit flip, truncation, trailing, indefinite, arity, splice, tags, null, byte, drop), COSE_Sign with missing / reordered / no verifiers, empty and null signature lists; '
                        'real algorithms (ES256/384/512, EdDSA, 4 HMAC, 4 AES-MAC): 24..200 bit flips per message (thorough: every bit of short messages), truncation, extension, external data, other key, other kind, field splices between independently produced messages')
     return D.finish(run, 'proof')
@@ -328,6 +330,7 @@ def c03(run):
     else:
         D.correspond(run, 'msg', [], reference_theorem='C03_*_binds (model of Decrypt)')
         D.oracle(run, 'msgreal', [])
+        D.oracle(run, 'realseq', [])
     run.cov['rule'] = ('fake-primitive Encrypt0 / Encrypt messages: IV, Partial IV + Base IV, generated IV; wrong key, wrong external data, mutated encodings (12 classes), Payload inspected after every failed Decrypt; '
                        '12 real AEAD algorithms: bit flips over ciphertext / IV / protected bytes / tag prefix / array shape, truncation, extension, other key, other kind, splices')
     return D.finish(run, 'proof')
@@ -349,6 +352,7 @@ def c09(run):
         D.correspond(run, 'msg', [], reference_theorem='C09_reencode_* (model of MarshalCBOR after UnmarshalCBOR)')
         D.correspond(run, 'msgparts', [], reference_theorem='C09_decode_encode / C09_struct_members_roundtrip (header maps, recipients, KDF contexts)')
         D.oracle(run, 'values', [])
+        D.oracle(run, 'realseq', [])
     run.cov['rule'] = ('every produced message of the 6 kinds decoded and re-encoded (bytes must be identical), in the three tagging forms; mutated and foreign (non-canonical, verifying) encodings re-encoded and consumed again; '
                        'recipients with one nesting level, KDF contexts with nil / empty / non-empty members, header maps; keys of all 24 algorithms and random key maps, key sets, claim sets in struct and map form, ByteStr in 3 forms: encode, decode, compare, encode again')
     return D.finish(run, 'proof')
@@ -367,6 +371,7 @@ def c01(run):
     else:
         D.correspond(run, 'msg', [], reference_theorem='C01_*_roundtrip (model of produce and consume)')
         D.oracle(run, 'msgreal', [])
+        D.oracle(run, 'realseq', [])
     run.cov['rule'] = ('6 kinds x fake keys (alg / kid / Base IV variants) x header maps (int / text labels of several Go integer types; int, bstr, tstr, bool, array, nested-map values) x payload kinds (nil, empty, bytes 1..70000 crossing every length-head class, RawMessage, typed) x external data (nil, empty, up to 256 bytes) x 0..3 recipients with one nesting level / 0..4 signers, consumed tagged, untagged and CWT-tagged; '
                        '24 real algorithms x 2 kinds each x payload lengths 0..1000 (thorough: 65535..70000) x headers x external data, consumed in the three forms with content compared')
     return D.finish(run, 'proof')
